@@ -65,6 +65,9 @@ func (e *Exec) initPackage(pkg *ssa.Package, into map[*ssa.Global]*Obj, freeze b
 	savedSeq, savedEpoch, savedSteps := e.objSeq, e.epoch, e.steps
 	savedMon := e.mon
 	e.mon = nil
+	savedPr, savedGo := e.pr, e.collectGo
+	e.pr, e.collectGo = nil, false
+	defer func() { e.pr, e.collectGo = savedPr, savedGo }()
 	e.initing++
 	e.initPkg = append(e.initPkg, pkg)
 	startSeq := e.objSeq
